@@ -470,6 +470,16 @@ archive_read_open1(struct archive *_a)
 		return (ARCHIVE_FATAL);
 	}
 
+	/*
+	 * The callbacks may have been set without any callback data:
+	 * they then get NULL, as they do from archive_read_open().
+	 */
+	if (a->client.nodes == 0 &&
+	    archive_read_set_callback_data(&a->archive, NULL) != ARCHIVE_OK) {
+		a->archive.state = ARCHIVE_STATE_FATAL;
+		return (ARCHIVE_FATAL);
+	}
+
 	/* Open data source. */
 	if (a->client.opener != NULL) {
 		e = (a->client.opener)(&a->archive, a->client.dataset[0].data);
